@@ -123,11 +123,17 @@ Replaced(f) == CASE Op = "remove" -> f \notin DOMAIN fs
                  [] Op = "soft" -> f \in DOMAIN fs /\ fs[f].k = "link"
                  [] Op = "move" -> f \notin DOMAIN fs
                  [] OTHER -> FALSE
+\* a path that was a hard link of an untouched member before and is one now (group reported with --match-links): the end state cannot
+\* tell whether `link` replaced it by an identical link or not
+Unknowable(f) == /\ Op = "hard" /\ f \in DOMAIN fs /\ f \in DOMAIN fs0 /\ fs[f].k = "file" /\ fs0[f].k = "file"
+                 /\ \E m \in members : m # f /\ m \in DOMAIN fs0 /\ m \in DOMAIN fs /\ fs[m] = fs0[m] /\ fs[m].k = "file" /\ fs[m].ino = fs[f].ino /\ fs0[f].ino = fs0[m].ino
 \* Processed N = number of files really replaced; a failure is warned about
 ObsCount == (ended /\ ~Full /\ plan # "kill" /\ Op # "reflink") =>
-               /\ (Prev.processed = -2 \/ Prev.processed = Cardinality({f \in members : Replaced(f)}))
+               LET sure == Cardinality({f \in members : Replaced(f)})
+                   maybe == Cardinality({f \in dropped : ~Replaced(f) /\ Unknowable(f)}) IN
+               /\ (Prev.processed = -2 \/ (sure <= Prev.processed /\ Prev.processed <= sure + maybe))
 ObsWarned == (ended /\ ~Full /\ plan \in {"fail1", "fail2"} /\ Op # "reflink" /\ Op # "move") =>
-               (Cardinality({f \in dropped : Replaced(f)}) < Cardinality(dropped) => Prev.warns >= 1)
+               (Cardinality({f \in dropped : Replaced(f) \/ Unknowable(f)}) < Cardinality(dropped) => Prev.warns >= 1)
 \* single fault, no crash: no original is left stranded under a temporary name
 ObsRestored == (ended /\ ~Full /\ plan \in {"none", "fail1"}) => \A f \in members : Op \in {"remove", "move"} \/ Read(fs, f) = Orig(f)
 
